@@ -126,4 +126,25 @@ KeyGenD(c, order, rnd) == SecretSet(CoordVal(order, SubSeq(rnd, 1, FieldBytes(c)
 \* SEC 1 3.3.1 / 3.3.2: z = x-coordinate of d*Q, resp. of (h*d)*Q with the cofactor; the neutral element has no x: failure
 DHPointW(c, d, Q, cof, MQ(_)) == MQ(IF cof THEN c.h * d ELSE d)
 DHPoint(c, d, Q, cof) == DHPointW(c, d, Q, cof, LAMBDA j : Mul(c, j, Q))
+
+(* ------------------------------------------------------------------ hybrid form; public key from private-key octets *)
+\* X9.62 hybrid form of a finite point P: the prefix 06 | 07 repeats the parity of y.  agree = FALSE gives the string
+\* whose prefix contradicts y (ImportW: may be refused; if accepted it denotes P).
+Hybrid(c, order, P, agree) ==
+   [x |-> << 6 + ((P[2] + (IF agree THEN 0 ELSE 1)) % 2) >> \o Coord(c, P[1], order) \o Coord(c, P[2], order), y |-> NoBlock]
+\* parities of the most and of the least significant octet of Y written as FieldBytes octets.  The parity of y is the
+\* parity of its LEAST significant octet whatever the byte order; which of the two octets ends the encoding depends on
+\* the byte order, so a corpus that wants to tell the two apart needs points of all four classes.
+YOctetParities(c, P) == << (P[2] \div TwoTo(8 * (FieldBytes(c) - 1))) % 2, P[2] % 2 >>
+\* octets of v in the chosen byte order, len octets (v < 256^len)
+Octets(v, len, order) == IF order = "be" THEN ToBE(v, len) ELSE ToLE(v, len)
+\* Public key from private-key octets ds (a number d in the chosen byte order).  A private key is an integer of
+\* [1, n-1] (SEC 1 3.2.1, GOST R 34.10 6.1): 0 and whatever is >= n are no private keys and must be refused; nothing
+\* is derived from them.  An octet string longer than the field (leading zero octets) is outside the documented sizes:
+\* it may be refused; if accepted the result is d*G.  Pub(d) = the public key of d (parameter: tables / other number types).
+PrivImportW(c, order, ds, Pub(_)) ==
+   LET d == CoordVal(order, ds) IN
+   IF Len(ds) = 0 \/ d = 0 \/ d >= c.n THEN Reject
+   ELSE IF Len(ds) > FieldBytes(c) THEN May(Pub(d)) ELSE Ok(Pub(d))
+PrivImport(c, order, ds) == PrivImportW(c, order, ds, LAMBDA d : PubOf(c, d))
 =============================================================================
